@@ -516,4 +516,174 @@ theorem recheck_noLoss (c : Cfg) (m : Option Method) (s : St) (ps : List Path)
     (hs : forEachP (St.recheckOne c m false) (fun s p => RecheckSafeAt c s p) s ps) : NoLoss s (s.recheck c m false ps).1 :=
   forEach_rel_P NoLoss NoLoss.refl (fun _ _ _ => NoLoss.trans) _ _ (fun s p h => recheckOne_noLoss c m s p h) s ps hs
 
+/-! ## `untrack`: what can be read in the workspace stays readable at its path -/
+
+/-- whatever could be read at a workspace path can still be read there -/
+def WsKeep (s s' : St) : Prop := ∀ q b n, s.readThrough q = some (b, n) → ∃ n', s'.readThrough q = some (b, n')
+
+theorem WsKeep.refl (s : St) : WsKeep s s := fun _ _ n h => ⟨n, h⟩
+theorem WsKeep.trans {s s' s'' : St} (h1 : WsKeep s s') (h2 : WsKeep s' s'') : WsKeep s s'' := by
+  intro q b n h
+  obtain ⟨n', h'⟩ := h1 q b n h
+  exact h2 q b n' h'
+
+theorem wsKeep_of_eq {s s' : St} (hws : s'.ws = s.ws) (hc : s'.cache = s.cache) : WsKeep s s' := by
+  intro q b n h
+  exact ⟨n, by simpa [St.readThrough, hws, hc] using h⟩
+
+/-- replacing the entry at `p` by a copy of object `a` keeps the bytes when `p` read as that object's bytes -/
+theorem recheckFromCache_copy_wsKeep (s : St) (p : Path) (a : Addr)
+    (h : ∀ b n, s.readThrough p = some (b, n) → ∃ o, s.cache a = some o ∧ o.b = b) :
+    WsKeep s (s.recheckFromCache p a .copy).1 := by
+  intro q b n hr
+  by_cases hq : q = p
+  · subst hq
+    obtain ⟨o, ho, hb⟩ := h b n hr
+    refine ⟨s.clock, ?_⟩
+    unfold St.recheckFromCache
+    have hsome : (s.readThrough q).isSome = true := by simp [hr]
+    simp only [hsome, if_true]
+    have h1 : (s.setWs q none).ws q = none := by simp [St.setWs]
+    have h2 : (s.setWs q none).cache a = some o := ho
+    simp only [h1, h2]
+    simp [St.readThrough, St.setWs, St.tick, hb]
+  · have hk : CacheKeep s (s.recheckFromCache p a .copy).1 := fun a' o ho => by
+      rw [recheckFromCache_cache]; exact ho
+    exact ⟨n, readThrough_keep (recheckFromCache_ws_other s p q a .copy hq) hk hr⟩
+
+/-- the link at the path of entity `e` is faithful: a symbolic link points at the object of the current
+    version, and an entry that is a hard link of a cache object carries that object's bytes -/
+def LinkOkAt (s : St) (e : Ent) : Prop :=
+  ∀ r, s.recs e = some r →
+    (∀ a' d, s.ws r.path = some (.sym a') → r.cur = some d → a' = addrOf r.path d) ∧
+    (∀ b w st a, s.ws r.path = some (.file b w st (some a)) → ∃ o, s.cache a = some o ∧ o.b = b)
+
+theorem rematOne_wsKeep (s : St) (e : Ent) (h : LinkOkAt s e) : WsKeep s (s.rematOne e).1 := by
+  unfold St.rematOne
+  cases hre : s.recs e with
+  | none => exact WsKeep.refl s
+  | some r =>
+    obtain ⟨hsym, hlink⟩ := h r hre
+    simp only
+    cases hw : s.ws r.path with
+    | none =>
+      cases hc : r.cur with
+      | none => exact WsKeep.refl s
+      | some d =>
+        simp only
+        apply recheckFromCache_copy_wsKeep
+        intro b n hr
+        simp [St.readThrough, hw] at hr
+    | some en =>
+      cases en with
+      | sym a' =>
+        cases hc : r.cur with
+        | none => exact WsKeep.refl s
+        | some d =>
+          simp only
+          apply recheckFromCache_copy_wsKeep
+          intro b n hr
+          have ha := hsym a' d hw hc
+          subst ha
+          simp only [St.readThrough, hw] at hr
+          cases ho : s.cache (addrOf r.path d) with
+          | none => simp [ho] at hr
+          | some o => exact ⟨o, rfl, by simp [ho] at hr; exact hr.1⟩
+      | file b w st l =>
+        cases l with
+        | none => cases r.cur <;> exact WsKeep.refl s
+        | some a =>
+          cases hc : r.cur with
+          | none => exact WsKeep.refl s
+          | some d =>
+            simp only
+            split
+            · rename_i hcond
+              apply recheckFromCache_copy_wsKeep
+              intro b' n hr
+              obtain ⟨o, ho, hb⟩ := hlink b w st a hw
+              have : b' = b := by simp [St.readThrough, hw] at hr; exact hr.1.symm
+              subst this
+              rw [← hcond.2]
+              exact ⟨o, ho, hb⟩
+            · exact WsKeep.refl s
+
+theorem rematerialise_wsKeep (s : St) (ts : List Ent) (h : forEachP St.rematOne LinkOkAt s ts) :
+    WsKeep s (s.rematerialise ts).1 :=
+  forEach_rel_P WsKeep WsKeep.refl (fun _ _ _ => WsKeep.trans) _ _ rematOne_wsKeep s ts h
+
+/-- unlinking a cache object no workspace symlink points at keeps every readable workspace entry
+    (hard links of it become independent files with the same bytes) -/
+theorem removeObj_wsKeep (s : St) (a : Addr) (h : ∀ q, s.ws q ≠ some (.sym a)) : WsKeep s (s.removeObj a) := by
+  unfold St.removeObj
+  split
+  · intro q b n hr
+    refine ⟨n, ?_⟩
+    unfold St.readThrough at hr ⊢
+    cases hw : s.ws q with
+    | none => simp [hw] at hr
+    | some en =>
+      cases en with
+      | file b' w st l =>
+        have : ((s.detach a).setCache a none).ws q = some (.file b' w st (match l with | some a' => if a' = a then none else some a' | none => none)) := by
+          simp only [St.setCache, St.detach, hw]
+          cases l with
+          | none => rfl
+          | some a' => by_cases ha : a' = a <;> simp [ha]
+        rw [this]; simpa [hw] using hr
+      | sym a' =>
+        have hne : a' ≠ a := fun hc => h q (by rw [hw, hc])
+        have : ((s.detach a).setCache a none).ws q = some (.sym a') := by simp [St.setCache, St.detach, hw]
+        rw [this]
+        simp only [hw] at hr ⊢
+        show Option.map _ (upd s.cache a none a') = _
+        rw [upd_other _ _ hne]; exact hr
+  · exact WsKeep.refl s
+
+theorem removeObj_ws_sym (s : St) (a : Addr) (q : Path) (a' : Addr) :
+    (s.removeObj a).ws q = some (.sym a') ↔ s.ws q = some (.sym a') := by
+  unfold St.removeObj
+  split
+  · simp only [St.setCache, St.detach]
+    cases hw : s.ws q with
+    | none => simp
+    | some en =>
+      cases en with
+      | sym x => simp
+      | file b w st l =>
+        cases l with
+        | none => simp
+        | some x => by_cases hx : x = a <;> simp [hx]
+  · rfl
+
+theorem foldl_removeObj_wsKeep (l : List Addr) (s : St) (h : ∀ a ∈ l, ∀ q, s.ws q ≠ some (.sym a)) :
+    WsKeep s (l.foldl St.removeObj s) := by
+  induction l generalizing s with
+  | nil => exact WsKeep.refl s
+  | cons a l ih =>
+    simp only [List.foldl_cons]
+    refine (removeObj_wsKeep s a (h a (by simp))).trans (ih _ ?_)
+    intro a' ha' q hq
+    exact h a' (by simp [ha']) q ((removeObj_ws_sym s a q a').mp hq)
+
+/-- **`untrack` keeps the workspace**: whatever could be read at a workspace path before — target or not,
+    link or file — can be read there afterwards, provided the links of the targets are faithful when
+    they are re-materialised and no workspace symlink that remains points at an object `untrack` deletes -/
+theorem untrack_wsKeep (s : St) (ps : List Path)
+    (h1 : forEachP St.rematOne LinkOkAt s (s.targetEnts ps))
+    (h2 : ∀ a ∈ s.untrackDeletable (s.targetEnts ps), ∀ q, (s.rematerialise (s.targetEnts ps)).1.ws q ≠ some (.sym a)) :
+    WsKeep s (s.untrack ps).1 := by
+  have hk := rematerialise_wsKeep s (s.targetEnts ps) h1
+  unfold St.untrack
+  simp only
+  generalize s.rematerialise (s.targetEnts ps) = res at hk h2
+  obtain ⟨s1, o⟩ := res
+  have key : WsKeep s ((s.untrackDeletable (s.targetEnts ps)).foldl St.removeObj (s1.dropRecs (s.targetEnts ps))) :=
+    hk.trans ((wsKeep_of_eq (s' := s1.dropRecs (s.targetEnts ps)) rfl rfl).trans
+      (foldl_removeObj_wsKeep _ _ (fun a ha q => h2 a ha q)))
+  cases o <;> simp only
+  · exact key
+  · exact key
+  · exact hk
+
 end Repo
